@@ -43,6 +43,8 @@ var (
 )
 
 type filler struct {
+	forceRS  int8 // 0: random record-set version, 1 / 2: forced
+	nrec     int  // > 0: number of records per set
 	r        *rand.Rand
 	payloads msgs.Payloads
 	version  int16
@@ -99,10 +101,19 @@ func (f *filler) integer(bits int) int64 {
 
 func (f *filler) records() []protocol.Record {
 	n := 1 + f.r.Intn(2)
+	if f.nrec > 0 {
+		n = f.nrec
+	}
 	recs := make([]protocol.Record, n)
 	for i := range recs {
 		k, v := gen.Bytes(f.r, f.r.Intn(5)), gen.Bytes(f.r, f.r.Intn(12))
+		if f.nrec > 0 {
+			k, v = []byte{'k', byte('0' + i)}, []byte{'v', 'a', 'l', byte('0' + i)}
+		}
 		recs[i] = protocol.Record{Offset: int64(i), Time: time.Unix(1600000000+int64(i), 0).UTC(), Key: protocol.NewBytes(k), Value: protocol.NewBytes(v)}
+		if f.nrec > 0 && i == 0 {
+			recs[i].Headers = []protocol.Header{{Key: "h", Value: []byte{1, 2}}}
+		}
 	}
 	return recs
 }
@@ -133,6 +144,9 @@ func (f *filler) fill(v reflect.Value, depth int) {
 		ver := int8(2)
 		if f.r.Intn(2) == 0 {
 			ver = 1
+		}
+		if f.forceRS != 0 {
+			ver = f.forceRS
 		}
 		recs := f.records()
 		payload, err := msgs.RecordPayload(ver, cloneRecs(recs))
@@ -425,7 +439,7 @@ func malFile(path string) {
 			timedOut := false
 			select {
 			case <-done:
-			case <-time.After(8 * time.Second):
+			case <-time.After(5 * time.Second):
 				timedOut = true
 				cmd.Process.Kill()
 				<-done
@@ -460,7 +474,7 @@ func malFile(path string) {
 				}
 				fmt.Fprintf(w, "mal %s %s %s\t%s\n", c[0], c[1], c[2], out)
 				next += started + 1
-				if crashes++; crashes >= 20 {
+				if crashes++; crashes >= 8 {
 					// enough failing inputs for a verdict: do not spend the whole budget on a broken decoder
 					fmt.Fprintf(os.Stderr, "stopping after %d crashed cases\n", crashes)
 					return
@@ -525,10 +539,7 @@ func malgen() {
 					}
 				} else {
 					offs = append(offs, 0)
-					for off := 8; off < len(frame) && off < 14; off++ {
-						offs = append(offs, off)
-					}
-					for k := 0; k < 6 && len(frame) > 14; k++ {
+					for k := 0; k < 4 && len(frame) > 14; k++ {
 						offs = append(offs, 14+r.Intn(len(frame)-14))
 					}
 				}
@@ -583,13 +594,66 @@ func malgen() {
 	}
 }
 
+func hasRecordSet(t reflect.Type) bool {
+	switch {
+	case t == recordSetType || t == rawRecordSetType:
+		return true
+	case t.Kind() == reflect.Slice:
+		return hasRecordSet(t.Elem())
+	case t.Kind() == reflect.Struct:
+		for i := 0; i < t.NumField(); i++ {
+			if hasRecordSet(t.Field(i).Type) {
+				return true
+			}
+		}
+	}
+	return false
+}
+
+// malframes prints well-formed response frames `<i> <ver> <hex>` (small full value; for types holding a
+// RecordSet one frame per message-set format, with 3 records, keys and a header) — the C20 generator
+// overwrites every length / count field of them (positions come from the oracle's `lens` op).
+func malframes() {
+	r := gen.New()
+	w := bufio.NewWriter(os.Stdout)
+	defer w.Flush()
+	for i, m := range msgs.All {
+		if m.IsRequest {
+			continue
+		}
+		lo, hi := versions(m)
+		for ver := lo; ver <= hi; ver++ {
+			variants := []int8{0}
+			if hasRecordSet(reflect.TypeOf(m.New()).Elem()) {
+				variants = []int8{1, 2}
+			}
+			for _, rsv := range variants {
+				f := &filler{r: r, payloads: msgs.Payloads{}, version: ver, mode: 1, forceRS: rsv}
+				if rsv != 0 {
+					f.nrec = 3
+				}
+				msg := m.New()
+				f.fill(reflect.ValueOf(msg).Elem(), 0)
+				frame, err := encodeReal(m, ver, 7, "", msg)
+				if err != nil {
+					continue
+				}
+				fmt.Fprintf(w, "%d %d %s\n", i, ver, hex.EncodeToString(frame))
+			}
+		}
+	}
+}
+
 func main() {
+	malframesF := flag.Bool("malframes", false, "print well-formed response frames (C20)")
 	malgenF := flag.Bool("malgen", false, "print malformed response frames (C20)")
 	decF := flag.String("dec", "", "file of `<i> <ver> <hex>` frames to decode with the real code")
 	malF := flag.String("mal", "", "file of `<i> <ver> <hex>` malformed frames to decode in child processes")
 	childF := flag.Bool("child", false, "internal")
 	flag.Parse()
 	switch {
+	case *malframesF:
+		malframes()
 	case *malgenF:
 		malgen()
 	case *childF:
